@@ -236,3 +236,11 @@ Definition agree_bv (g : gmodel) (impl : option (qmat * list Q * labels)) (model
       sclose_cols s v mv && sclose_l s loc (map qmean (qcols (g_t g) mv)) && lab_eqb l ml
   | None, None => true
   | _, _ => false end.
+
+(** ** object lifecycle: the property setters, and __copy__ / __deepcopy__ / copy() / deepcopy() (the constructor applied to copies
+    of the coefficient arrays).  A model object is its current coefficient arrays and nothing else (no memoised products). *)
+Definition set_beta (g : gmodel) (b : qmat) : gmodel := mkG (g_cls g) b (g_umisc g) (g_ua g) (g_ud g) (g_t g).
+Definition set_umisc (g : gmodel) (m : qmat) : gmodel := mkG (g_cls g) (g_beta g) m (g_ua g) (g_ud g) (g_t g).
+Definition set_ua (g : gmodel) (a : qmat) : gmodel := mkG (g_cls g) (g_beta g) (g_umisc g) a (g_ud g) (g_t g).
+Definition set_ud (g : gmodel) (d : qmat) : gmodel := mkG (g_cls g) (g_beta g) (g_umisc g) (g_ua g) d (g_t g).
+Definition model_copy (g : gmodel) : gmodel := mkG (g_cls g) (g_beta g) (g_umisc g) (g_ua g) (g_ud g) (g_t g).
